@@ -141,9 +141,13 @@ def ed_sign_case(kd, ph, ctx, msg, acc):
     signer = eddsa.new(libpriv(kd), "rfc8032", context=ctx)
     obj = lib_input(cv, ph, msg)
     out = B.lib_outcome(signer.sign, obj)
+    if out[0] in ("ValueError", "TypeError"):
+        acc.observe("eddsa sign refuses (%s): %s, %s" % (out[0], cv, vname(ph, ctx)))
+        return None
     if out[0] != "accept":
         acc.violation("C04/eddsa/%s/sign-raises/%s@%s" % (cv, out[0], exc_site(out[1])), pre + ": sign raised %s: %s" % (out[0], out[1]), case)
         return None
+    acc.count("signatures_ok")
     sig = out[1]
     exp = REC.eddsa_sign(cv, kd["seed"], ref_input(cv, ph, msg), ctx, ph)
     if sig != exp or type(sig) is not bytes:
@@ -171,8 +175,8 @@ try:
     key = eddsa.import_public_key(pub)
     eddsa.new(key, "rfc8032", context=bytes.fromhex("%s")).verify(%s, sig)
     print("library: accepted")
-except ValueError as e:
-    print("library: ValueError", e)
+except Exception as e:
+    print("library:", type(e).__name__, e)
 print("RFC 8032: %s")
 '''
 
@@ -249,23 +253,30 @@ def ed_verify_case(cv, pub, ph, ctx, msg, sig, tag, acc, demand=False, full=Fals
 
 
 def ed_context_limit_case(cv, acc):
-    """contexts longer than 255 octets do not exist in RFC 8032: new() must refuse them with ValueError"""
+    """contexts longer than 255 octets do not exist in RFC 8032: nothing may be signed or accepted under one, and the
+    refusal (by new(), sign() or verify()) must be a ValueError; 255 octets must work"""
     from Crypto.Signature import eddsa
     kd = _KEYS[cv]
+    case = {"part": "ed-context", "curve": cv}
     out = B.lib_outcome(eddsa.new, libpriv(kd), "rfc8032", bytes(256))
     if out[0] == "accept":
-        # does it really sign / verify?
         o2 = B.lib_outcome(out[1].sign, b"m")
-        acc.violation("C04/eddsa/%s/context-of-256-octets-not-refused" % cv,
-                      "%s: eddsa.new(context=256 octets) succeeds (sign() then gives %s); RFC 8032 contexts are at most 255 octets"
-                      % (cv, short(o2[1]) if o2[0] == "accept" else o2[0]), {"part": "ed-context", "curve": cv})
+        o3 = B.lib_outcome(out[1].verify, b"m", REC.eddsa_sign(cv, kd["seed"], b"m", bytes(255), False))
+        if o2[0] == "accept" or o3[0] == "accept":
+            acc.violation("C04/eddsa/%s/context-of-256-octets-usable" % cv,
+                          "%s: with a 256-octet context sign() gives %s and verify() gives %s; RFC 8032 contexts are at most 255 octets"
+                          % (cv, short(o2[1]) if o2[0] == "accept" else o2[0], o3[0]), case)
+        elif o2[0] != "ValueError" or o3[0] != "ValueError":
+            acc.violation("C04/eddsa/%s/context-of-256-octets-raises-%s" % (cv, o2[0] if o2[0] != "ValueError" else o3[0]),
+                          "%s: with a 256-octet context sign() raises %s and verify() raises %s (must be ValueError)" % (cv, o2[0], o3[0]), case)
+        else:
+            acc.observe("eddsa.new() accepts a 256-octet context; sign() and verify() then raise ValueError")
     elif out[0] != "ValueError":
         acc.violation("C04/eddsa/%s/context-of-256-octets-raises-%s" % (cv, out[0]),
-                      "%s: eddsa.new(context=256 octets) raises %s" % (cv, out[0]), {"part": "ed-context", "curve": cv})
+                      "%s: eddsa.new(context=256 octets) raises %s (must be ValueError)" % (cv, out[0]), case)
     out = B.lib_outcome(eddsa.new, libpriv(kd), "rfc8032", bytes(255))
     if out[0] != "accept":
-        acc.violation("C04/eddsa/%s/context-of-255-octets-refused" % cv,
-                      "%s: eddsa.new(context=255 octets) raises %s" % (cv, out[0]), {"part": "ed-context", "curve": cv})
+        acc.observe("eddsa.new(context=255 octets) raises %s" % out[0])
     acc.count("evaluations", 2)
     acc.seen("classes", ("eddsa", cv, "context-limit"))
 
@@ -420,7 +431,10 @@ def worker(shards):
             _, _, vi, mn, flips = sh
             ph, ctx = VARIANTS[vi]
             msg = msgs[mn]
-            sig = REC.eddsa_sign(cv, kd["seed"], ref_input(cv, ph, msg), ctx, ph)
+            sig = ed_sign_case(kd, ph, ctx, msg, acc)        # the library's own signature (compared with the reference)
+            acc.count("signatures")
+            if sig is None:
+                continue
             n = 0
             for tag, cand in genuine_candidates(cv, sig, tuple(flips) if flips else None):
                 _tally(acc, cv, ph, ctx, tag, *ed_verify_case(cv, kd["pub"], ph, ctx, msg, cand, tag, acc, demand=(tag == "authentic")))
